@@ -124,6 +124,9 @@ def run_case(c):
         s = base
         for _ in range(c["iterations"]):
             s = s.subdivide() if k == "subdivide" else s.subdivide_loop(iterations=1)
+        if k == "subdivide" and c["iterations"] == 1 and len(base.faces) <= 200:
+            o["tris0"] = np.array(base.triangles).tolist()
+            o["tris1"] = np.array(s.triangles).tolist()
         o.update({"verts_kept": bool(np.allclose(np.array(s.vertices)[:len(base.vertices)], base.vertices)) if k == "subdivide" else True,
                   "area": float(s.area), "volume": float(s.volume), "watertight": bool(s.is_watertight),
                   "winding": bool(s.is_winding_consistent), "euler": int(s.euler_number), "nfaces": len(s.faces),
@@ -188,6 +191,37 @@ def oracle(c, o):
                 return bad("edge-longer-than-bound", factor=c["factor"])
             if abs(o["area"] - o["base_area"]) > 1e-9:
                 return bad("area-changed")
+    return None
+
+
+def _q(x):
+    n, d = float(x).as_integer_ratio()
+    return [n, d]
+
+
+def model_request(c, o):
+    if "err" in o or "tris0" not in o:
+        return None
+    return {"p": "C18", "tris": [[[_q(x) for x in p] for p in t] for t in o["tris0"]]}
+
+
+def compare(c, o, m):
+    if "err" in m:
+        return "model error: " + str(m["err"])
+    from fractions import Fraction
+    f = lambda q: float(Fraction(q[0], q[1]))  # noqa
+    if Fraction(*m["vol"]) != Fraction(*m["vol_sub"]):
+        return "model: subdivision changed the signed volume"
+    want = sorted(tuple(sorted(tuple(round(f(x), 12) for x in p) for p in t)) for t in m["children"])
+    got = sorted(tuple(sorted(tuple(round(x, 12) for x in p) for p in t)) for t in o["tris1"])
+    if want != got:
+        return "subdivide: the set of child triangles differs from the model's four children per face"
+    # orientation: every child has the parent's (quarter) area vector - compare summed area vectors per direction
+    A1 = np.array(o["tris1"])
+    av1 = np.cross(A1[:, 1] - A1[:, 0], A1[:, 2] - A1[:, 0]).sum(axis=0)
+    av0 = np.array([[f(x) for x in v] for v in m["area_vecs"]]).sum(axis=0)
+    if np.abs(av1 - av0).max() > 1e-9 * max(1.0, np.abs(av0).max()):
+        return "subdivide: children are not wound like their parents"
     return None
 
 
